@@ -1011,7 +1011,7 @@ func (x *Exec) keepThin(kind, label string) bool {
 	if x.flags["lockonly"] && len(x.only) == 0 {
 		x.only = []string{"locks"}
 	}
-	if len(x.only) == 0 {
+	if len(x.only) == 0 || kind == "frame" {
 		return true
 	}
 	for _, p := range x.only {
